@@ -210,7 +210,7 @@ def check(rep):
     if not quick:
         seq.append(dict(name="re-entrant: 3 handlers, 2 watches, 3 events", module=mod, harness="h_seq", args=(3, 2, 3)))
     for sp in seq:
-        sp.update(setup="setup", encode=("watchdog", "queue", "vf.props.c05"), jobs=4, query_timeout_s=900 if quick else 3000, loop_bound=40)
+        sp.update(setup="setup", encode=("watchdog", "queue", "vf.props.c05"), jobs=4, query_timeout_s=900 if quick else 3000, loop_bound=400)
     racy = [("BaseObserver", "_handlers"), ("World", "mark"), ("EventQueue", "_last_item")]
     conc = [dict(name="threads: emitter0 x2 events | dispatcher", module=mod, harness="h_threads", args=(2, 0, False),
                  steps=40),
@@ -223,7 +223,7 @@ def check(rep):
                          harness="h_threads", args=(2, 1, True), steps=60))
     for sp in conc:
         sp.update(setup="setup", encode=("watchdog", "queue", "vf.props.c05"), racy=racy, jobs=4, query_timeout_s=900 if quick else 3000,
-                  loop_bound=40)
+                  loop_bound=400)
     specs = seq + conc
     res = run_sessions(specs, workers=min(len(specs), 8))
     rep.add_results(res)
